@@ -821,7 +821,7 @@ GENERATORS.insert(0, ("C02.cdata.", _comment_cdata_delimiters))
 
 def _empty_root(repo, ob, failure):
     """an empty root element: the output is still one complete <svg> element, keeping the author's attributes"""
-    for doc in ['<svg/>', '<svg width="10"/>', '<svg id="r" />\n', '<!-- c --><svg/>']:
+    for doc in ['<svg/>', '<svg width="10"/>', '<svg id="r" />\n', '<!-- c --><svg/>', '<svg width="10" height="10" text="hi"/>']:
         r = run_svgdx(repo, doc)
         if r["rc"] != 0:
             continue
@@ -834,6 +834,7 @@ def _empty_root(repo, ob, failure):
 
 
 GENERATORS.insert(0, ("C02.root.closed", _empty_root))
+GENERATORS.insert(0, ("C02.root.end_tag_last", _empty_root))
 
 
 def _reuse_placement(repo, ob, failure):
